@@ -78,6 +78,10 @@ pub enum Target {
     VecString,
     VecOptString,
     VecI64,
+    VecU32,
+    VecI32,
+    VecU8,
+    VecI16,
     VecOptI64,
     VecF64,
     VecOptF64,
@@ -138,6 +142,11 @@ enum Ty {
     OptF64,
     Bool,
     OptBool,
+    /// narrower integer targets: conversions are plain `as` casts of the cell's i64 / f64
+    U32,
+    I32,
+    U8,
+    I16,
 }
 
 // canonical values ------------------------------------------------------------------------------
@@ -190,6 +199,26 @@ trait Canon {
 impl Canon for i64 {
     fn canon(&self) -> J {
         J::I(*self)
+    }
+}
+impl Canon for u32 {
+    fn canon(&self) -> J {
+        J::I(*self as i64)
+    }
+}
+impl Canon for i32 {
+    fn canon(&self) -> J {
+        J::I(*self as i64)
+    }
+}
+impl Canon for u8 {
+    fn canon(&self) -> J {
+        J::I(*self as i64)
+    }
+}
+impl Canon for i16 {
+    fn canon(&self) -> J {
+        J::I(*self as i64)
     }
 }
 impl Canon for f64 {
@@ -328,6 +357,39 @@ fn convert(c: &CellV, ty: Ty) -> Conv {
             },
             _ => Conv::Unspec,
         },
+        Ty::U32 | Ty::I32 | Ty::U8 | Ty::I16 => {
+            // the documented rule is the plain numeric cast of the stored i64 / f64
+            let from_i = |i: i64| match ty {
+                Ty::U32 => i as u32 as i64,
+                Ty::I32 => i as i32 as i64,
+                Ty::U8 => i as u8 as i64,
+                _ => i as i16 as i64,
+            };
+            let from_f = |f: f64| match ty {
+                Ty::U32 => f as u32 as i64,
+                Ty::I32 => f as i32 as i64,
+                Ty::U8 => f as u8 as i64,
+                _ => f as i16 as i64,
+            };
+            match c {
+                CellV::Int(i) => Conv::Val(E::I(from_i(*i))),
+                CellV::Float(f) => Conv::Val(E::I(from_f(*f))),
+                CellV::Str(s) => {
+                    let parsed = match ty {
+                        Ty::U32 => s.parse::<u32>().ok().map(|v| v as i64),
+                        Ty::I32 => s.parse::<i32>().ok().map(|v| v as i64),
+                        Ty::U8 => s.parse::<u8>().ok().map(|v| v as i64),
+                        _ => s.parse::<i16>().ok().map(|v| v as i64),
+                    };
+                    match parsed {
+                        Some(v) => Conv::Val(E::I(v)),
+                        None if s.trim().parse::<f64>().is_ok() => Conv::Unspec,
+                        None => Conv::MustErr,
+                    }
+                }
+                _ => Conv::Unspec,
+            }
+        }
         Ty::F64 => match c {
             CellV::Int(i) => Conv::Val(E::F(*i as f64)),
             CellV::Float(f) => Conv::Val(E::F(*f)),
@@ -411,6 +473,10 @@ fn positional_types(t: Target, n: usize) -> Option<Vec<Ty>> {
         Target::VecString => vec![Ty::String; n],
         Target::VecOptString => vec![Ty::OptString; n],
         Target::VecI64 => vec![Ty::I64; n],
+        Target::VecU32 => vec![Ty::U32; n],
+        Target::VecI32 => vec![Ty::I32; n],
+        Target::VecU8 => vec![Ty::U8; n],
+        Target::VecI16 => vec![Ty::I16; n],
         Target::VecOptI64 => vec![Ty::OptI64; n],
         Target::VecF64 => vec![Ty::F64; n],
         Target::VecOptF64 => vec![Ty::OptF64; n],
@@ -652,6 +718,10 @@ fn run_target(case: &Case, range: &Range<Data>, total_rows: usize) -> Got {
         Target::VecString => drive::<Vec<String>>(case, range, total_rows),
         Target::VecOptString => drive::<Vec<Option<String>>>(case, range, total_rows),
         Target::VecI64 => drive::<Vec<i64>>(case, range, total_rows),
+        Target::VecU32 => drive::<Vec<u32>>(case, range, total_rows),
+        Target::VecI32 => drive::<Vec<i32>>(case, range, total_rows),
+        Target::VecU8 => drive::<Vec<u8>>(case, range, total_rows),
+        Target::VecI16 => drive::<Vec<i16>>(case, range, total_rows),
         Target::VecOptI64 => drive::<Vec<Option<i64>>>(case, range, total_rows),
         Target::VecF64 => drive::<Vec<f64>>(case, range, total_rows),
         Target::VecOptF64 => drive::<Vec<Option<f64>>>(case, range, total_rows),
@@ -828,8 +898,8 @@ const POOL: &[&str] = &["alpha", "beta", "gamma", "delta", "eps", "zeta", "Name"
 
 fn cell_for(ty_hint: u8) -> BoxedStrategy<CellV> {
     // ty_hint biases the column towards values that convert for a type, so that whole records succeed often
-    let int = prop_oneof![Just(0i64), Just(1), Just(-1), -1000i64..1000, any::<i64>()].prop_map(CellV::Int);
-    let float = prop_oneof![Just(0.0f64), Just(1.5), Just(-2.25), Just(1e10), Just(3.0), -1e6f64..1e6, Just(1e300), Just(-0.0), Just(0.5), Just(-0.25), Just(1e-9), Just(0.999), -1.0f64..1.0].prop_map(CellV::Float);
+    let int = prop_oneof![Just(0i64), Just(1), Just(-1), -1000i64..1000, any::<i64>(), Just(2_147_483_648), Just(4_000_000_000), Just(4_294_967_295), Just(255), Just(256), Just(32_768), Just(-32_769)].prop_map(CellV::Int);
+    let float = prop_oneof![Just(0.0f64), Just(1.5), Just(-2.25), Just(1e10), Just(3.0), -1e6f64..1e6, Just(1e300), Just(-0.0), Just(0.5), Just(-0.25), Just(1e-9), Just(0.999), -1.0f64..1.0, Just(3e9), Just(2147483648.0), Just(-1.0), Just(300.0)].prop_map(CellV::Float);
     let numstr = prop_oneof![Just("42"), Just("-7"), Just("3.5"), Just("1e3"), Just("0"), Just(" 5"), Just("007"), Just("+8")].prop_map(|s| CellV::Str(s.to_string()));
     let boolstr = prop_oneof![Just("TRUE"), Just("true"), Just("True"), Just("FALSE"), Just("false"), Just("False"), Just("yes"), Just("tRUE")].prop_map(|s| CellV::Str(s.to_string()));
     let text = "[a-zA-Z é]{0,6}".prop_map(CellV::Str);
@@ -853,6 +923,7 @@ fn target_strategy() -> impl Strategy<Value = Target> {
         1 => Just(Target::VecString),
         1 => Just(Target::VecOptString),
         1 => Just(Target::VecI64),
+        1 => prop_oneof![Just(Target::VecU32), Just(Target::VecI32), Just(Target::VecU8), Just(Target::VecI16)],
         1 => Just(Target::VecOptI64),
         1 => Just(Target::VecF64),
         1 => Just(Target::VecOptF64),
@@ -871,7 +942,7 @@ fn target_strategy() -> impl Strategy<Value = Target> {
 
 fn hint_for(target: Target, name: &str, col: usize) -> u8 {
     match target {
-        Target::VecI64 | Target::VecOptI64 => 0,
+        Target::VecI64 | Target::VecOptI64 | Target::VecU32 | Target::VecI32 | Target::VecU8 | Target::VecI16 => 0,
         Target::VecF64 | Target::VecOptF64 => 1,
         Target::VecString | Target::VecOptString | Target::MapString => 2,
         Target::VecBool | Target::VecOptBool => 3,
